@@ -8,3 +8,6 @@ import "time"
 func VerifNetCode(s *Sample) int         { return s.get(keyErrno) }
 func VerifTimestamp(s *Sample) time.Time { return s.timeStamp }
 func VerifFields(s *Sample) []int        { return append([]int(nil), s.fields[:]...) }
+
+// VerifRelease hands a handled sample back to the sample pool, as the phout aggregator does.
+func VerifRelease(s *Sample) { releaseSample(s) }
